@@ -6,7 +6,9 @@ package main
 //
 // A case is a ';'-separated operation list (replayable with --only, shrinkable by dropping operations):
 //
-//   g=<genesis>;f=<forbidden ids>;e=<configured max_block_height_excess>;<op>;<op>;...
+//   g=<genesis>;f=<forbidden ids>;e=<configured max_block_height_excess>;[zw=1;]<op>;<op>;...
+//   (zw=1: the history contains zero-work headers - C01's known finding makes the history-level oracle inapplicable,
+//    only model = implementation is required; the _any_work theorems cover these stores)
 //
 //   op = <id>,<prev>,<bits>,<ver>,<merkle>,<ts>,<nonce>      Chains.Add of that header (common_chain.go syntax)
 //      | q=<item>,<item>,...                                 POST /api/v1/chain/merkleroot/verify on the gin engine
@@ -405,6 +407,9 @@ func c02Run(c *Ctx, p *c02Stacks, head map[string]string, ops []merkOp, gen *ran
 	var sb strings.Builder
 	sb.WriteString(merkHeadLine(h))
 	fmt.Fprintf(&sb, ";e=%d", excess)
+	if head["zw"] != "" {
+		sb.WriteString(";zw=1")
+	}
 	var obs []string
 	var prev []c02Item
 	nq, reorgs := 0, 0
@@ -667,6 +672,7 @@ func runC02(c *Ctx) error {
 		}
 	}
 	k := 0
+	zeroWork := false
 	var fromOps func(h *History, ops []merkOp, tag string) error
 	fromHistory := func(h *History, tag string) error { return fromOps(h, subOps02(h.Subs), tag) }
 	fromOps = func(h *History, ops []merkOp, tag string) error {
@@ -677,6 +683,9 @@ func runC02(c *Ctx) error {
 			fs[i] = strconv.Itoa(f)
 		}
 		head["f"] = strings.Join(fs, ",")
+		if zeroWork {
+			head["zw"] = "1"
+		}
 		return c02Run(c, p, head, ops, c.Rng, tag)
 	}
 	// all trees over n headers x work classes {2,4} x arrival orders: stale siblings at a longest height,
@@ -704,6 +713,16 @@ func runC02(c *Ctx) error {
 	for i := 0; i < c.Pick(120, 900); i++ {
 		h, ops := c02Planted(c.Rng, i%4)
 		if err := fromOps(h, ops, fmt.Sprintf("shared-roots-planted-%c", "abcd"[i%4])); err != nil {
+			return err
+		}
+	}
+	// zero-work headers (any-work theorems; oracle not applied, model = implementation only)
+	for i := 0; i < c.Pick(80, 600); i++ {
+		h := GenHistory(c.Rng, GenOpts{N: 2 + c.Rng.Intn(c.Pick(16, 30)), PUnknown: 0.06, PLate: 0.08, PDup: 0.05, ZeroWork: true, Deep: i%2 == 0})
+		zeroWork = true
+		err := fromHistory(h, "zero-work")
+		zeroWork = false
+		if err != nil {
 			return err
 		}
 	}
